@@ -12,7 +12,7 @@ sys.path.insert(0, os.path.dirname(os.path.abspath(__file__)))
 from common import *  # noqa
 
 PID = "C19"
-VALS = ["1", "2", "s"]
+VALS = ["0", "2", "s"]      # 0: a stored value that is falsy in Python
 QUERIES = ["Qs", "Qh", "Ql", "QH", "QL", "Qu"]
 
 
